@@ -16,6 +16,10 @@ import traceback
 
 from harness import core
 
+import faulthandler
+import signal
+faulthandler.register(signal.SIGUSR1, all_threads=True)
+
 
 def load_known(prop):
     path = os.path.join(core.VERIF, "known_findings.json")
@@ -128,9 +132,18 @@ def main(argv):
         if nproc <= 1 or len(tasks) <= 1:
             results = [core.run_shard(t) for t in tasks]
         else:
+            # (an executor, unlike multiprocessing.Pool, notices a worker
+            # that was killed, e.g. by the OOM killer, instead of hanging)
+            import concurrent.futures as cf
             ctx = multiprocessing.get_context("fork")
-            with ctx.Pool(min(nproc, len(tasks))) as pool:
-                results = pool.map(core.run_shard, tasks, chunksize=1)
+            try:
+                with cf.ProcessPoolExecutor(min(nproc, len(tasks)),
+                                            mp_context=ctx) as pool:
+                    results = list(pool.map(core.run_shard, tasks))
+            except cf.process.BrokenProcessPool:
+                print("HARNESS-ERROR a worker process died (killed?); "
+                      "inconclusive")
+                return 2
 
     # 4. merge
     per_check = collections.OrderedDict()
